@@ -28,6 +28,9 @@ type Solver struct {
 	Log     io.Writer
 	buf     strings.Builder
 	TimeoutMs int
+	lines   chan string
+	dead    bool
+	Restarts int
 }
 
 func solverArgv(name string, timeoutMs int) []string {
@@ -43,27 +46,58 @@ func solverArgv(name string, timeoutMs int) []string {
 }
 
 func NewSolver(u *Univ, name string, timeoutMs int) (*Solver, error) {
-	argv := solverArgv(name, timeoutMs)
+	s := &Solver{Name: name, u: u, defined: map[int]bool{}, funs: map[string]bool{}, TimeoutMs: timeoutMs}
+	if err := s.start(); err != nil {
+		return nil, err
+	}
+	return s, nil
+}
+
+func (s *Solver) start() error {
+	argv := solverArgv(s.Name, s.TimeoutMs)
 	cmd := exec.Command(argv[0], argv[1:]...)
 	in, err := cmd.StdinPipe()
 	if err != nil {
-		return nil, err
+		return err
 	}
 	outp, err := cmd.StdoutPipe()
 	if err != nil {
-		return nil, err
+		return err
 	}
 	cmd.Stderr = cmd.Stdout
 	if err := cmd.Start(); err != nil {
-		return nil, err
+		return err
 	}
-	s := &Solver{Name: name, cmd: cmd, in: in, out: bufio.NewReaderSize(outp, 1<<20), u: u,
-		defined: map[int]bool{}, funs: map[string]bool{}, TimeoutMs: timeoutMs}
-	s.send("(set-option :produce-models true)\n")
-	if name == "cvc5" {
-		s.send("(set-logic QF_UFBV)\n")
+	s.cmd, s.in = cmd, in
+	s.out = bufio.NewReaderSize(outp, 1<<20)
+	s.dead = false
+	lines := make(chan string, 1024)
+	s.lines = lines
+	rd := s.out
+	go func() {
+		for {
+			l, err := rd.ReadString('\n')
+			if l != "" {
+				lines <- strings.TrimSpace(l)
+			}
+			if err != nil {
+				close(lines)
+				return
+			}
+		}
+	}()
+	return nil
+}
+
+// kill terminates a stuck solver process; the next query starts a new one.
+func (s *Solver) kill() {
+	if s.cmd != nil {
+		s.in.Close()
+		s.cmd.Process.Kill()
+		s.cmd.Wait()
+		s.cmd = nil
 	}
-	return s, nil
+	s.dead = true
 }
 
 func (s *Solver) Close() {
@@ -79,6 +113,12 @@ func (s *Solver) Close() {
 func (s *Solver) send(txt string) {
 	if s.Log != nil {
 		io.WriteString(s.Log, txt)
+	}
+	if s.dead || s.cmd == nil {
+		if err := s.start(); err != nil {
+			return
+		}
+		s.Restarts++
 	}
 	io.WriteString(s.in, txt)
 }
@@ -223,9 +263,24 @@ const (
 
 func (r Result) String() string { return [...]string{"unsat", "sat", "unknown"}[r] }
 
+// readLine waits for one output line; the deadline is enforced on this side
+// too, because a solver stuck in preprocessing ignores its own soft timeout.
 func (s *Solver) readLine() (string, error) {
-	l, err := s.out.ReadString('\n')
-	return strings.TrimSpace(l), err
+	if s.dead {
+		return "", fmt.Errorf("solver not running")
+	}
+	d := time.Duration(s.TimeoutMs)*time.Millisecond*2 + 5*time.Second
+	select {
+	case l, ok := <-s.lines:
+		if !ok {
+			s.dead = true
+			return "", fmt.Errorf("solver exited")
+		}
+		return l, nil
+	case <-time.After(d):
+		s.kill()
+		return "", fmt.Errorf("hard timeout after %v", d)
+	}
 }
 
 // Check runs check-sat. Any "(error" line makes the result Unknown.
@@ -238,7 +293,9 @@ func (s *Solver) Check() (Result, string) {
 	for {
 		l, err := s.readLine()
 		if err != nil {
-			return Unknown, "solver died: " + err.Error()
+			s.Queries++
+			s.Time += time.Since(t0)
+			return Unknown, "solver: " + err.Error()
 		}
 		if l == "<<done>>" || l == "\"<<done>>\"" {
 			break
